@@ -265,6 +265,32 @@ func dstRun(args []string) int {
 			}
 		}
 	}
+	// corpus of past failures (D9): evaluated on every run
+	for _, fc := range []struct {
+		zone, expr string
+		sp         tsp
+		prev       string
+	}{
+		{"America/New_York", "0 30 2 * * ?", tsp{sec: []int{0}, min: []int{30}, hour: []int{2}}, "2024-03-09T17:00:00Z"},
+		{"America/New_York", "0 30 2 * * ?", tsp{sec: []int{0}, min: []int{30}, hour: []int{2}}, "2024-03-10T06:59:59Z"},
+		{"America/New_York", "0 45 1 * * ?", tsp{sec: []int{0}, min: []int{45}, hour: []int{1}}, "2024-11-03T06:30:00Z"},
+		{"America/New_York", "0 45 1 * * ?", tsp{sec: []int{0}, min: []int{45}, hour: []int{1}}, "2024-11-03T05:30:00Z"},
+		{"Europe/London", "0 */15 1 * * ?", tsp{sec: []int{0}, min: []int{0, 15, 30, 45}, hour: []int{1}}, "2024-10-27T00:20:00Z"},
+		{"Australia/Lord_Howe", "0 15 2 * * ?", tsp{sec: []int{0}, min: []int{15}, hour: []int{2}}, "2024-10-05T12:00:00Z"},
+	} {
+		for _, z := range zones {
+			if z.name != fc.zone {
+				continue
+			}
+			t, _ := time.Parse(time.RFC3339, fc.prev)
+			sp := fc.sp
+			ncases = append(ncases, ncase{len(ops), z, fc.expr, sp, t.Unix(), "corpus", firstMatch(z.loc, &sp, t.Unix())})
+			ops = append(ops, fmt.Sprintf("cron nextz %s %s %d", encRunes(fc.expr), z.name, t.Unix()*1e9))
+			impl = append(impl, "")
+			reqs = append(reqs, fmt.Sprintf("N %s %s %d", hexArg(fc.expr), z.name, t.Unix()*1e9))
+			dist["place"]["corpus"]++
+		}
+	}
 	ans := sup.Map(*workers, 5*time.Second, []string{selfExe(), "cron-worker"}, reqs)
 	viol := []string{}
 	nontrivial := 0
